@@ -312,6 +312,18 @@ class Check:
                        trusted_base=['Coq 8.16.1 kernel + vm_compute'] + self.trusted)
         else:
             cov.setdefault('trusted_base', self.trusted)
+        # keys the evidence schema types: keep the builders' richer values under a *_detail name
+        typed = dict(evaluations=int, distinct_nontrivial=int, states=int, transitions=int, traces_validated_against_impl=int,
+                     obligations=int, discharged=int, programs=int, disagreements_checked=int, rule=str, checker_cmd=str,
+                     explanation=str, samples=list, trusted_base=list, exhaustive=bool)
+        for k, t in typed.items():
+            if k in cov and not (isinstance(cov[k], t) and not (t is int and isinstance(cov[k], bool))):
+                v = cov.pop(k)
+                cov[k + '_detail'] = v
+                if t is int and isinstance(v, (list, dict)):
+                    cov[k] = len(v)
+                elif t is bool:
+                    cov[k] = False
         if not cov.get('samples'):
             cov['samples'] = ['(no sample recorded)']
         cov['known_findings_reported'] = sorted(reported_known)
